@@ -7,27 +7,27 @@ import importlib
 RULES = {
     "C01": [("sa.rules.b6", "r_C19a_C01"), ("sa.rules.c01", "r_C01ef"), ("sa.rules.c17", "r_C01h"), ("sa.rules.c01", "r_C01i"), ("sa.rules.c22", "r_rule_params_eval"), ("sa.rules.b6", "r_C23"), ("sa.rules.c04", "r_C04a"), ("sa.rules.c04", "r_C04num"), ("sa.rules.c03", "r_C03k"), ("sa.rules.c22", "r_C22jk"), ("sa.rules.cmeta", "r_initobj"), ("sa.rules.c21", "r_matchvisitors"), ("sa.rules.cmeta", "r_mmapi"), ("sa.rules.c02", "r_C02eval"), ("sa.rules.c03e", "r_C03eval"), ("sa.rules.c01e", "r_C01visitors"), ("sa.rules.cpn", "r_processnode"), ("sa.rules.b3", "r_C16a"), ("sa.rules.c25e", "r_resolverefs"), ("sa.rules.c25e", "r_resolvecls")],
     "C02": [("sa.rules.b3", "r_C08_C34"), ("sa.rules.c01", "r_C01ef"), ("sa.rules.cmeta", "r_initobj"), ("sa.rules.c02", "r_C02eval"), ("sa.rules.c01e", "r_C01visitors"), ("sa.rules.cres", "r_resolver"), ("sa.rules.cpn", "r_processnode"), ("sa.rules.c13", "r_C13eval"), ("sa.rules.cmisc", "r_C06bcd")],
-    "C03": [("sa.rules.b1", "r_C03a"), ("sa.rules.b6", "r_C03bc"), ("sa.rules.b3", "r_C03de_C11a_C17bc"), ("sa.rules.c03", "r_C03fgh"), ("sa.rules.c03", "r_C03k"), ("sa.rules.c25", "r_C25efg"), ("sa.rules.cmeta", "r_initclass"), ("sa.rules.c03e", "r_C03eval"), ("sa.rules.cpn", "r_processnode"), ("sa.rules.c17", "r_C01h"), ("sa.rules.c02", "r_C02eval"), ("sa.rules.c01e", "r_C01visitors"), ("sa.rules.c25e", "r_resolvecls")],
+    "C03": [("sa.rules.b1", "r_C03a"), ("sa.rules.b6", "r_C03bc"), ("sa.rules.b3", "r_C03de_C11a_C17bc"), ("sa.rules.c03", "r_C03fgh"), ("sa.rules.c03", "r_C03k"), ("sa.rules.c25", "r_C25efg"), ("sa.rules.cmeta", "r_initclass"), ("sa.rules.c03e", "r_C03eval"), ("sa.rules.cpn", "r_processnode"), ("sa.rules.c17", "r_C01h"), ("sa.rules.c02", "r_C02eval"), ("sa.rules.c01e", "r_C01visitors"), ("sa.rules.c25e", "r_resolvecls"), ("sa.rules.b2", "r_C25")],
     "C04": [("sa.rules.b2", "r_C04"), ("sa.rules.c04", "r_C04a"), ("sa.rules.c04", "r_C04num"), ("sa.rules.c04", "r_C04defaults"), ("sa.rules.c01", "r_C01ef"), ("sa.rules.cmisc", "r_C06bcd"), ("sa.rules.cmeta", "r_mmapi"), ("sa.rules.cpn", "r_processnode"), ("sa.rules.c14", "r_endconstruction"), ("sa.rules.cmeta", "r_initobj"), ("sa.rules.c16", "r_sharedbase")],
     "C05": [("sa.rules.b3", "r_C05_C10"), ("sa.rules.c05", "r_C05cde"), ("sa.rules.c14", "r_C14h"), ("sa.rules.c14", "r_C14inst"), ("sa.rules.b3", "r_C16a"), ("sa.rules.cpn", "r_processnode"), ("sa.rules.c05e", "r_C05children"), ("sa.rules.cmeta", "r_initobj"), ("sa.rules.c13", "r_C13eval")],
     "C06": [("sa.rules.b7", "r_origin"), ("sa.rules.cmisc", "r_C06bcd"), ("sa.rules.c05", "r_C05cde"), ("sa.rules.c17", "r_C01h"), ("sa.rules.cpn", "r_processnode"), ("sa.rules.cdrv", "r_driver"), ("sa.rules.c16", "r_cachekeys"), ("sa.rules.c01e", "r_C01visitors"), ("sa.rules.c21", "r_matchvisitors"), ("sa.rules.cmeta", "r_internalload"), ("sa.rules.c25e", "r_resolverefs"), ("sa.rules.b6", "r_C19a_C01"), ("sa.rules.c16", "r_parseroverrides")],
     "C07": [("sa.rules.b3", "r_C07"), ("sa.rules.b6", "r_C03bc"), ("sa.rules.c03", "r_C03fgh"), ("sa.rules.c07", "r_C07eval"), ("sa.rules.c05", "r_none_tests"), ("sa.rules.c01", "r_C01i"), ("sa.rules.c25", "r_who_writes"), ("sa.rules.b3", "r_C16a"), ("sa.rules.c01e", "r_C01visitors"), ("sa.rules.cres", "r_resolver"), ("sa.rules.cpn", "r_processnode"), ("sa.rules.c05e", "r_C05children"), ("sa.rules.c32", "r_C32"), ("sa.rules.c03e", "r_C03eval"), ("sa.rules.cmeta", "r_initclass")],
-    "C08": [("sa.rules.b3", "r_C08_C34"), ("sa.rules.cmeta", "r_initobj"), ("sa.rules.cres", "r_resolver"), ("sa.rules.cpn", "r_processnode"), ("sa.rules.c09e", "r_extrel"), ("sa.rules.c02", "r_C02eval")],
+    "C08": [("sa.rules.b3", "r_C08_C34"), ("sa.rules.cmeta", "r_initobj"), ("sa.rules.cres", "r_resolver"), ("sa.rules.cpn", "r_processnode"), ("sa.rules.c09e", "r_extrel"), ("sa.rules.c02", "r_C02eval"), ("sa.rules.c05", "r_C05cde")],
     "C09": [("sa.rules.b3", "r_C09"), ("sa.rules.b3", "r_C07"), ("sa.rules.cmisc", "r_C13d_C34f_C09d"), ("sa.rules.b3", "r_C08_C34"), ("sa.rules.cres", "r_resolver"), ("sa.rules.c10e", "r_C10eval"), ("sa.rules.cpn", "r_processnode"), ("sa.rules.c11e", "r_C11eval"), ("sa.rules.cdrv", "r_driver"), ("sa.rules.c09e", "r_extrel"), ("sa.rules.c17", "r_C18i"), ("sa.rules.c17e", "r_C17eval")],
     "C10": [("sa.rules.b3", "r_C05_C10"), ("sa.rules.c05", "r_none_tests"), ("sa.rules.b6", "r_C03bc"), ("sa.rules.c03", "r_C03fgh"), ("sa.rules.c01", "r_C01i"), ("sa.rules.c01e", "r_C01visitors"), ("sa.rules.c10e", "r_C10eval"), ("sa.rules.c05e", "r_C05children"), ("sa.rules.c14", "r_C14inst"), ("sa.rules.cres", "r_resolver"), ("sa.rules.cpn", "r_processnode"), ("sa.rules.c17e", "r_C17eval"), ("sa.rules.c17e", "r_C17importuri"), ("sa.rules.c03e", "r_C03eval"), ("sa.rules.cmeta", "r_internalload")],
     "C11": [("sa.rules.b3", "r_C03de_C11a_C17bc"), ("sa.rules.c11", "r_C11b"), ("sa.rules.c11", "r_C11de"), ("sa.rules.c32", "r_C32c"), ("sa.rules.c05", "r_none_tests"), ("sa.rules.c12", "r_C12f"), ("sa.rules.c12e", "r_C12eval"), ("sa.rules.c11e", "r_C11eval"), ("sa.rules.c01e", "r_C01visitors"), ("sa.rules.c25e", "r_resolvecls"), ("sa.rules.c02", "r_C02eval")],
     "C12": [("sa.rules.b1", "r_C12a"), ("sa.rules.c12", "r_C12b"), ("sa.rules.c05", "r_C12c"), ("sa.rules.c11", "r_C11de"), ("sa.rules.c12", "r_C12f"), ("sa.rules.c12e", "r_C12eval"), ("sa.peg", "r_C24")],
     "C13": [("sa.rules.b3", "r_C13"), ("sa.rules.c13", "r_C13eval"), ("sa.rules.cmisc", "r_C13d_C34f_C09d"), ("sa.rules.cmisc", "r_C13e"), ("sa.rules.c04", "r_C04defaults"), ("sa.rules.c17", "r_C18i"), ("sa.rules.b3", "r_C28b_C33b_C30bc"), ("sa.rules.cmeta", "r_mmapi"), ("sa.rules.cpn", "r_processnode"), ("sa.rules.cdrv", "r_driver"), ("sa.rules.c14", "r_endconstruction"), ("sa.rules.c05", "r_C05cde"), ("sa.rules.c02", "r_C02eval"), ("sa.rules.c14", "r_C14inst")],
-    "C14": [("sa.rules.b4", "r_ledger"), ("sa.rules.c14", "r_C14inst"), ("sa.rules.c14", "r_ledger2"), ("sa.rules.b3", "r_C13"), ("sa.rules.c14", "r_C14h"), ("sa.rules.c14", "r_C14d"), ("sa.rules.c14", "r_C14i"), ("sa.rules.c14", "r_C15h"), ("sa.rules.c14", "r_C15i"), ("sa.rules.cmeta", "r_initclass"), ("sa.rules.cmeta", "r_initobj"), ("sa.rules.cpn", "r_processnode"), ("sa.rules.cdrv", "r_driver"), ("sa.rules.cmisc", "r_C06bcd"), ("sa.rules.c14", "r_endconstruction"), ("sa.rules.c17e", "r_C15eval"), ("sa.rules.cmeta", "r_validateuc"), ("sa.rules.c01e", "r_C01visitors")],
-    "C15": [("sa.rules.b4", "r_ledger"), ("sa.rules.c14", "r_ledger2"), ("sa.rules.c14", "r_C14i"), ("sa.rules.c14", "r_C15h"), ("sa.rules.b3", "r_C16a"), ("sa.rules.c14", "r_C15i"), ("sa.rules.c17", "r_C17jkl"), ("sa.rules.c17", "r_C18i"), ("sa.rules.c14", "r_C14inst"), ("sa.rules.cmeta", "r_initclass"), ("sa.rules.c17e", "r_C17eval"), ("sa.rules.c17e", "r_C15eval"), ("sa.rules.cdrv", "r_driver"), ("sa.rules.c14", "r_endconstruction")],
-    "C16": [("sa.rules.b3", "r_C16a"), ("sa.rules.c14", "r_ledger2"), ("sa.rules.c16", "r_cachekeys"), ("sa.rules.c16", "r_C16f"), ("sa.rules.c17", "r_C17i"), ("sa.rules.c25", "r_C27d"), ("sa.rules.b4", "r_ledger"), ("sa.rules.c14", "r_C14i"), ("sa.rules.c14", "r_C15h"), ("sa.rules.b6", "r_C19a_C01"), ("sa.rules.c14", "r_C14inst"), ("sa.rules.cmeta", "r_initclass"), ("sa.rules.c17", "r_C01h"), ("sa.rules.c17e", "r_C17eval"), ("sa.rules.c17e", "r_C15eval"), ("sa.rules.c17e", "r_C17importuri"), ("sa.rules.cdrv", "r_driver"), ("sa.rules.c17", "r_C18i"), ("sa.rules.c17e", "r_globalrepo"), ("sa.rules.cmeta", "r_internalload"), ("sa.rules.c16", "r_memo"), ("sa.rules.c16", "r_sharedbase")],
+    "C14": [("sa.rules.b4", "r_ledger"), ("sa.rules.c14", "r_C14inst"), ("sa.rules.c14", "r_ledger2"), ("sa.rules.b3", "r_C13"), ("sa.rules.c14", "r_C14h"), ("sa.rules.c14", "r_C14d"), ("sa.rules.c14", "r_C14i"), ("sa.rules.c14", "r_C15h"), ("sa.rules.c14", "r_C15i"), ("sa.rules.cmeta", "r_initclass"), ("sa.rules.cmeta", "r_initobj"), ("sa.rules.cpn", "r_processnode"), ("sa.rules.cdrv", "r_driver"), ("sa.rules.cmisc", "r_C06bcd"), ("sa.rules.c14", "r_endconstruction"), ("sa.rules.c17e", "r_C15eval"), ("sa.rules.cmeta", "r_validateuc"), ("sa.rules.c01e", "r_C01visitors"), ("sa.rules.c17e", "r_C17eval")],
+    "C15": [("sa.rules.b4", "r_ledger"), ("sa.rules.c14", "r_ledger2"), ("sa.rules.c14", "r_C14i"), ("sa.rules.c14", "r_C15h"), ("sa.rules.b3", "r_C16a"), ("sa.rules.c14", "r_C15i"), ("sa.rules.c17", "r_C17jkl"), ("sa.rules.c17", "r_C18i"), ("sa.rules.c14", "r_C14inst"), ("sa.rules.cmeta", "r_initclass"), ("sa.rules.c17e", "r_C17eval"), ("sa.rules.c17e", "r_C15eval"), ("sa.rules.cdrv", "r_driver"), ("sa.rules.c14", "r_endconstruction"), ("sa.rules.cmeta", "r_modelfromstr")],
+    "C16": [("sa.rules.b3", "r_C16a"), ("sa.rules.c14", "r_ledger2"), ("sa.rules.c16", "r_cachekeys"), ("sa.rules.c16", "r_C16f"), ("sa.rules.c17", "r_C17i"), ("sa.rules.c25", "r_C27d"), ("sa.rules.b4", "r_ledger"), ("sa.rules.c14", "r_C14i"), ("sa.rules.c14", "r_C15h"), ("sa.rules.b6", "r_C19a_C01"), ("sa.rules.c14", "r_C14inst"), ("sa.rules.cmeta", "r_initclass"), ("sa.rules.c17", "r_C01h"), ("sa.rules.c17e", "r_C17eval"), ("sa.rules.c17e", "r_C15eval"), ("sa.rules.c17e", "r_C17importuri"), ("sa.rules.cdrv", "r_driver"), ("sa.rules.c17", "r_C18i"), ("sa.rules.c17e", "r_globalrepo"), ("sa.rules.cmeta", "r_internalload"), ("sa.rules.c16", "r_memo"), ("sa.rules.c16", "r_sharedbase"), ("sa.rules.cmeta", "r_modelfromstr")],
     "C17": [("sa.rules.b3", "r_C03de_C11a_C17bc"), ("sa.rules.b6", "r_C17ad_C22b"), ("sa.rules.c05", "r_none_tests"), ("sa.rules.c17", "r_C17fgh"), ("sa.rules.b4", "r_ledger"), ("sa.rules.c17", "r_C17i"), ("sa.rules.c17", "r_C17jkl"), ("sa.rules.c17", "r_C18i"), ("sa.rules.c17e", "r_C17eval"), ("sa.rules.c17e", "r_C15eval"), ("sa.rules.c17e", "r_C17importuri"), ("sa.rules.cdrv", "r_driver"), ("sa.rules.c17e", "r_globalrepo"), ("sa.rules.cmeta", "r_internalload")],
-    "C18": [("sa.rules.b4", "r_ledger"), ("sa.rules.c14", "r_ledger2"), ("sa.rules.c14", "r_C15i"), ("sa.rules.c17", "r_C17jkl"), ("sa.rules.c17", "r_C18i"), ("sa.rules.c14", "r_C14inst"), ("sa.rules.c17e", "r_C17eval"), ("sa.rules.cdrv", "r_driver"), ("sa.rules.c17e", "r_C17importuri"), ("sa.rules.c17e", "r_C15eval"), ("sa.rules.c17e", "r_globalrepo"), ("sa.rules.cmeta", "r_internalload"), ("sa.rules.b3", "r_C16a")],
+    "C18": [("sa.rules.b4", "r_ledger"), ("sa.rules.c14", "r_ledger2"), ("sa.rules.c14", "r_C15i"), ("sa.rules.c17", "r_C17jkl"), ("sa.rules.c17", "r_C18i"), ("sa.rules.c14", "r_C14inst"), ("sa.rules.c17e", "r_C17eval"), ("sa.rules.cdrv", "r_driver"), ("sa.rules.c17e", "r_C17importuri"), ("sa.rules.c17e", "r_C15eval"), ("sa.rules.c17e", "r_globalrepo"), ("sa.rules.cmeta", "r_internalload"), ("sa.rules.b3", "r_C16a"), ("sa.rules.cmeta", "r_modelfromstr")],
     "C19": [("sa.rules.b6", "r_C19a_C01"), ("sa.rules.c16", "r_cachekeys"), ("sa.rules.c22", "r_visitor"), ("sa.rules.c01e", "r_C01visitors"), ("sa.rules.cmisc", "r_C06bcd"), ("sa.rules.c21", "r_matchvisitors"), ("sa.rules.c16", "r_parseroverrides")],
     "C20": [("sa.rules.b1", "r_C20a"), ("sa.rules.b6", "r_C19a_C01"), ("sa.rules.c16", "r_cachekeys"), ("sa.rules.c22", "r_visitor"), ("sa.rules.c21", "r_matchvisitors"), ("sa.rules.cpn", "r_processnode"), ("sa.rules.c01e", "r_C01visitors"), ("sa.rules.cmeta", "r_mmfromstr"), ("sa.rules.c16", "r_sharedbase")],
     "C21": [("sa.rules.b6", "r_C19a_C01"), ("sa.rules.c16", "r_cachekeys"), ("sa.rules.c22", "r_visitor"), ("sa.rules.c21", "r_matchvisitors"), ("sa.rules.c01e", "r_C01visitors"), ("sa.rules.c02", "r_C02eval"), ("sa.rules.cmeta", "r_mmfromstr"), ("sa.rules.c25e", "r_resolverefs")],
     "C22": [("sa.rules.c22", "r_rule_params_eval"), ("sa.rules.b6", "r_C19a_C01"), ("sa.rules.b6", "r_C17ad_C22b"), ("sa.rules.c22", "r_visitor"), ("sa.rules.c22", "r_C22jk"), ("sa.rules.c21", "r_matchvisitors"), ("sa.rules.cpn", "r_processnode"), ("sa.rules.cmisc", "r_C06bcd"), ("sa.rules.cmeta", "r_internalload"), ("sa.rules.c01e", "r_C01visitors"), ("sa.rules.c02", "r_C02eval"), ("sa.rules.c25e", "r_resolverefs"), ("sa.rules.cmeta", "r_mmfromstr"), ("sa.rules.c12", "r_C12b")],
-    "C23": [("sa.rules.b6", "r_C23"), ("sa.rules.c22", "r_rule_params_eval"), ("sa.rules.c22", "r_visitor"), ("sa.rules.c22", "r_C23g_C24d"), ("sa.rules.c21", "r_matchvisitors"), ("sa.rules.c02", "r_C02eval"), ("sa.rules.c01e", "r_C01visitors"), ("sa.rules.c03e", "r_C03eval"), ("sa.rules.cmisc", "r_C06bcd"), ("sa.rules.cmeta", "r_validateuc"), ("sa.rules.c25e", "r_resolverefs"), ("sa.rules.c25e", "r_resolvecls"), ("sa.peg", "r_C24")],
+    "C23": [("sa.rules.b6", "r_C23"), ("sa.rules.c22", "r_rule_params_eval"), ("sa.rules.c22", "r_visitor"), ("sa.rules.c22", "r_C23g_C24d"), ("sa.rules.c21", "r_matchvisitors"), ("sa.rules.c02", "r_C02eval"), ("sa.rules.c01e", "r_C01visitors"), ("sa.rules.c03e", "r_C03eval"), ("sa.rules.cmisc", "r_C06bcd"), ("sa.rules.cmeta", "r_validateuc"), ("sa.rules.c25e", "r_resolverefs"), ("sa.rules.c25e", "r_resolvecls"), ("sa.peg", "r_C24"), ("sa.rules.b2", "r_C25")],
     "C24": [("sa.peg", "r_C24"), ("sa.rules.c16", "r_cachekeys"), ("sa.rules.c22", "r_C23g_C24d")],
     "C25": [("sa.rules.b2", "r_C25"), ("sa.rules.c25", "r_C25efg"), ("sa.rules.c01", "r_C01i"), ("sa.rules.c25", "r_who_writes"), ("sa.rules.cmeta", "r_initclass"), ("sa.rules.cmeta", "r_namespaces"), ("sa.rules.c01e", "r_C01visitors"), ("sa.peg", "r_C24"), ("sa.rules.b6", "r_C23"), ("sa.rules.c25e", "r_resolverefs"), ("sa.rules.cmeta", "r_mmfromstr"), ("sa.rules.c16", "r_memo"), ("sa.rules.c25e", "r_resolvecls")],
     "C26": [("sa.rules.b2", "r_C26a"), ("sa.rules.b2", "r_C26bcdef"), ("sa.rules.c26", "r_C26eval"), ("sa.rules.c26", "r_C26state"), ("sa.rules.c16", "r_memo"), ("sa.rules.gen", "r_records")],
@@ -43,13 +43,13 @@ RULES = {
 
 # registrations that exist only so that a shared clause (ALSO) is reported under the property: the function's instances that
 # are counted without being recorded one by one stay with the properties it was written for
-SHARED_ONLY = {("C25", "r_C24"), ("C25", "r_C23"), ("C29", "r_ledger"), ("C33", "r_ledger"), ("C33", "r_ledger2"), ("C33", "r_C15i"), ("C23", "r_C06bcd"), ("C07", "r_initclass"), ("C10", "r_C17importuri"), ("C27", "r_C15eval"), ("C10", "r_C03eval"), ("C06", "r_C19a_C01"), ("C22", "r_C12b"), ("C12", "r_C24"), ("C23", "r_C24"), ("C18", "r_internalload"), ("C18", "r_C16a"), ("C33", "r_C16a"), ("C13", "r_C14inst"), ("C10", "r_internalload")}
+SHARED_ONLY = {("C18", "r_modelfromstr"), ("C15", "r_modelfromstr"), ("C16", "r_modelfromstr"), ("C14", "r_C17eval"), ("C23", "r_C25"), ("C03", "r_C25"), ("C08", "r_C05cde"), ("C25", "r_C24"), ("C25", "r_C23"), ("C29", "r_ledger"), ("C33", "r_ledger"), ("C33", "r_ledger2"), ("C33", "r_C15i"), ("C23", "r_C06bcd"), ("C07", "r_initclass"), ("C10", "r_C17importuri"), ("C27", "r_C15eval"), ("C10", "r_C03eval"), ("C06", "r_C19a_C01"), ("C22", "r_C12b"), ("C12", "r_C24"), ("C23", "r_C24"), ("C18", "r_internalload"), ("C18", "r_C16a"), ("C33", "r_C16a"), ("C13", "r_C14inst"), ("C10", "r_internalload")}
 # findings of one property that are *also* reported under another (same defect, two properties)
 ALSO = {
     "C21": {"C01": ("C01.a",)},
     "C32": {"C18": ("C18.k",), "C12": ("C12.e",)},
-    "C23": {"C03": ("C03.m",), "C06": ("C06.c",)},      # a valid grammar whose rule kinds cannot be determined ends in a non-textX error
-    "C03": {"C01": ("C01.h",)},
+    "C23": {"C03": ("C03.m",), "C06": ("C06.c",), "C25": ("C25.o",)},   # C25.o: the existence test before every lookup of the grammar compiler must agree with the lookup, else an unknown rule is a bare KeyError      # a valid grammar whose rule kinds cannot be determined ends in a non-textX error
+    "C03": {"C01": ("C01.h",), "C25": ("C25.o",)},   # C25.o: the rule-kind fixpoint visits the classes by iterating the meta-model
     "C18": {"C15": ("C15.k", "C15.m"), "C17": ("C17.n", "C17.o",), "C16": ("C16.a",)},
     "C20": {"C01": ("C01.k",)},
     # reference lists are attribute values too: the order clauses of C08 are clauses of C02 ("never reorder matched values")
